@@ -123,9 +123,10 @@ LxInit(cfg) ==
            okslices |-> {},                 \* <<key, off>> of slices with a successful service in the current call
            texts |-> LOpt(cfg, "status_texts", <<>>),
            access |-> LOpt(cfg, "access_texts", <<>>), fw |-> LOpt(cfg, "fw", 0), allprogs |-> LOpt(cfg, "all_programs", 1) = 1,
+           unspecInj |-> FALSE,             \* a service of the current call was answered with an injected "partial transfer" (6): what it did is not specified
            upl |-> [pages |-> 0, refused |-> FALSE] ]      \* refused: a symbol-list page of the current call was answered with an error status
 
-LxCall(lx, ev) == IF ~lx.on THEN lx ELSE [lx EXCEPT !.pre = lx.mem, !.xfer = <<>>, !.ledger = <<>>, !.svclog = <<>>, !.okslices = {},
+LxCall(lx, ev) == IF ~lx.on THEN lx ELSE [lx EXCEPT !.pre = lx.mem, !.xfer = <<>>, !.ledger = <<>>, !.svclog = <<>>, !.okslices = {}, !.unspecInj = FALSE,
                                                     !.upl = [pages |-> 0, refused |-> FALSE]]
 LxOpenMayFail(lx) == FALSE
 
@@ -171,7 +172,7 @@ TagService(lx0, svc, rawpath, segs, data, cap, choice, embedded) ==
             lx2 == IF r.ok THEN LogInjected(lx1, r, svc, st, ext) ELSE lx1
             \* a fragment answered with an injected error: the offsets of the rest of this transfer are no longer checked
             lx3 == IF svc \in {82, 83} THEN PutXfer(lx2, [path |-> rawpath, svc |-> svc, next |-> -1, total |-> 0, count |-> 0]) ELSE lx2
-        IN SvcR("", MRReply(svc, st, ext, <<>>), lx3)
+        IN SvcR("", MRReply(svc, st, ext, <<>>), [lx3 EXCEPT !.unspecInj = @ \/ st = 6])
     ELSE IF ~r.ok THEN SvcR("", MRReply(svc, r.status, r.ext, <<>>), lx1)
     ELSE LET es == TSize(P, r.t)  mem == MemOf(lx1, r.key)  hdr == TypeHeader(P, r.t) IN
     IF svc \in {76, 82} THEN                                                              \* Read Tag / Read Tag Fragmented
